@@ -68,7 +68,7 @@ def pipeline(ctx, replay=None, prop="all"):
             "sorts": "i16 stereo, u8 mono, f64 stereo (operands of add/mul at i8, f32 where the types say so)",
             "terms": "all depth<=1 terms (every closure / gain / delay variant, every leaf kind) in 3 sorts; "
                      "depth-2 terms (one variant per adaptor kind over from_iter leaves) in "
-                     + ("i16 stereo over sources {2,4}" if tier == "quick" else "3 sorts over sources {1,3,4} + equilibrium"),
+                     + ("i16 stereo over sources {2,4}" if tier == "quick" else "i16 stereo over sources {1,3,4}, u8 mono and f64 stereo over sources {2,4}"),
         }
         rnd = os.path.join(ctx.work, "signal_rand.ndjson")
         ctx.harness(hx, ["gen", str(ctx.seed), tier, rnd])
@@ -77,8 +77,9 @@ def pipeline(ctx, replay=None, prop="all"):
         tr = os.path.join(ctx.work, "signal_trace_%s.ndjson" % name)
         rej += ctx.run_stimuli(hx, sf, tr, "signal")
         ctx.count_distinct(tr)
-        res = ctx.validate("Trace_Signals", tr, comp="signal", max_lines=12000 if tier == "quick" else 40000,
-                           jobs=8, env={"SIG_PROP": prop})
+        # random executions are deeper (slower per event): smaller pieces, more JVMs
+        max_lines = 3000 if name == "random" else (12000 if tier == "quick" else 40000)
+        res = ctx.validate("Trace_Signals", tr, comp="signal", max_lines=max_lines, jobs=8, env={"SIG_PROP": prop})
         rej += res["rejected"]
         heap += res["heap"]
         os.remove(tr)
